@@ -332,9 +332,12 @@ class StreamResponse(
             return
         assert self._payload_writer is not None
         self._headers[hdrs.CONTENT_ENCODING] = coding.value
-        self._payload_writer.enable_compression(
-            coding.value, self._compression_strategy
-        )
+        if not self._must_be_empty_body:
+            # Without a body there is nothing to compress; an enabled
+            # compressor would still emit its trailer on write_eof().
+            self._payload_writer.enable_compression(
+                coding.value, self._compression_strategy
+            )
         # Compressed payload may have different content length,
         # remove the header
         self._headers.popall(hdrs.CONTENT_LENGTH, None)
@@ -458,6 +461,11 @@ class StreamResponse(
         if self._payload_writer is None:
             raise RuntimeError("Cannot call write() before prepare()")
 
+        if self._must_be_empty_body:
+            # HEAD requests and 1xx/204/304 responses never have a body:
+            # https://www.rfc-editor.org/rfc/rfc9112#section-6.3-2.1
+            return
+
         await self._payload_writer.write(data)
 
     async def drain(self) -> None:
@@ -480,6 +488,8 @@ class StreamResponse(
 
         assert self._payload_writer is not None, "Response has not been started"
 
+        if self._must_be_empty_body:
+            data = b""
         await self._payload_writer.write_eof(data)
         self._eof_sent = True
         self._req = None
